@@ -294,7 +294,7 @@ def gen_sel(rng, max_nodes=12, max_choices=4, max_opts=4, n_incompat=None, cons_
     return case
 
 
-def gen_layered(rng):
+def gen_layered(rng, cons_prob=0.0):
     """layered design spaces: a root deriving 2-3 subsystems, each with a top-level choice; options carry nested choices;
     incompatibilities between options of different top-level choices (hierarchical, merged, non-Cartesian scenarios)"""
     nid = [0]
@@ -306,10 +306,12 @@ def gen_layered(rng):
     edges, sel, top = [], [], []
     sel_nodes = []
     n_sys = rng.choice([2, 2, 3])
+    constrained = cons_prob and rng.random() < cons_prob
+    n_top_opts = rng.choice([2, 3]) if constrained else None     # constrained top-level choices get equal option counts
     for _ in range(n_sys):
         sysn = new()
         edges.append([root, sysn])
-        opts = [new() for _ in range(rng.choice([2, 2, 3]))]
+        opts = [new() for _ in range(n_top_opts if n_top_opts else rng.choice([2, 2, 3]))]
         sel_nodes.append((sysn, opts))
         top.append(opts)
     nested = []
@@ -341,7 +343,14 @@ def gen_layered(rng):
         o2 = rng.choice(rng.choice(top))
         if o1 != o2:
             incompat.append([o1, o2])
-    case = {'n': nid[0], 'edges': edges, 'sel': sel, 'start': [root], 'incompat': incompat, 'cons': []}
+    cons = []
+    if constrained:
+        ids = [sc['id'] for sc in sel[:n_sys]]
+        chosen = sorted(rng.sample(ids, 2))
+        cons.append({'type': rng.choice(['linked', 'linked', 'permutation', 'unordered', 'norepl']), 'choices': chosen})
+        if rng.random() < 0.7:
+            incompat = []
+    case = {'n': nid[0], 'edges': edges, 'sel': sel, 'start': [root], 'incompat': incompat, 'cons': cons}
     if rng.random() < 0.5:
         case['order'] = rng.randrange(1 << 30)
     return case
